@@ -628,9 +628,18 @@ impl Mp4Track {
             Err(err) => return Err(err),
         };
 
-        let mut buffer = vec![0x0u8; sample_size as usize];
+        let mut buffer = Vec::new();
         reader.seek(SeekFrom::Start(sample_offset))?;
-        reader.read_exact(&mut buffer)?;
+        reader
+            .by_ref()
+            .take(sample_size as u64)
+            .read_to_end(&mut buffer)?;
+        if buffer.len() < sample_size as usize {
+            return Err(Error::IoError(std::io::Error::new(
+                std::io::ErrorKind::UnexpectedEof,
+                "failed to fill whole buffer",
+            )));
+        }
 
         let (start_time, duration) = self.sample_time(sample_id)?;
         let rendering_offset = self.sample_rendering_offset(sample_id);
